@@ -43,29 +43,70 @@ pub fn run_worker(scenarios: Vec<Scenario>, oracle: Option<OracleFactory>, a: &W
             assert!(t.network == s.network && t.traces == s.traces, "one configuration per worker process");
         }
     }
-    for sc in &scenarios {
-        let mut agg = Stats { complete: true, depth_completed: sc.bounds.depth, ..Default::default() };
-        for (sname, setup) in &sc.starts {
+    // pass 0: every (scenario, start) gets its weighted share of the budget; later passes hand the time that
+    // was left over to the enumerations that were cut off, which resume where they stopped
+    struct Slot {
+        sc: usize,
+        start: usize,
+        resume: Option<u64>,
+        stats: Vec<Stats>,
+        depth_completed: usize,
+    }
+    let mut slots: Vec<Slot> = Vec::new();
+    for (i, sc) in scenarios.iter().enumerate() {
+        for j in 0..sc.starts.len() {
+            slots.push(Slot { sc: i, start: j, resume: Some(0), stats: Vec::new(), depth_completed: 0 });
+        }
+    }
+    for pass in 0..4 {
+        let todo: Vec<usize> = (0..slots.len()).filter(|k| slots[*k].resume.is_some() && slots[*k].resume != Some(u64::MAX)).collect();
+        if todo.is_empty() {
+            break;
+        }
+        if pass > 0 && a.budget_s - t0.elapsed().as_secs_f64() < 1.5 {
+            break;
+        }
+        remaining_w = todo.iter().map(|k| scenarios[slots[*k].sc].weight).sum();
+        for k in todo {
+            let sc = &scenarios[slots[k].sc];
+            let (sname, setup) = &sc.starts[slots[k].start];
             // share of what is left: time not used by earlier scenarios is handed on
             let left = (a.budget_s - t0.elapsed().as_secs_f64()).max(0.5);
             let deadline = Instant::now() + Duration::from_secs_f64(left * sc.weight / remaining_w);
             remaining_w -= sc.weight;
             let mut runner = Runner::new(sc.opts.clone(), sname, setup.clone(), sc.alphabet.clone());
-            if let Err(e) = crate::obs::check_method_table(&runner.subject) {
-                agg.machinery_errors.push(e);
+            if pass == 0 {
+                if let Err(e) = crate::obs::check_method_table(&runner.subject) {
+                    runner.stats.machinery_errors.push(e);
+                }
             }
             if let Some(f) = oracle {
                 runner.oracle = f(sc);
             }
             let t = Instant::now();
-            explore(&mut runner, &sc.bounds, &Shard { index: a.shard, count: a.nshards, chunk: 32 }, deadline, a.seed, a.validate_n);
+            let from = slots[k].resume.unwrap_or(0);
+            let stopped = explore(&mut runner, &sc.bounds, &Shard { index: a.shard, count: a.nshards, chunk: 32 }, deadline, a.seed, if pass == 0 { a.validate_n } else { 0 }, from);
             let mut st = runner.finish();
             st.wall_s = t.elapsed().as_secs_f64();
-            let complete = st.complete;
-            let dc = st.depth_completed;
-            agg.merge(st);
-            agg.complete &= complete;
-            agg.depth_completed = agg.depth_completed.min(dc);
+            if pass > 0 {
+                st.counters.insert("resumed_enumerations".into(), 1);
+            }
+            slots[k].resume = stopped;
+            slots[k].depth_completed = st.depth_completed;
+            slots[k].stats.push(st);
+        }
+    }
+    for (i, sc) in scenarios.iter().enumerate() {
+        let mut agg = Stats { complete: true, depth_completed: sc.bounds.depth, ..Default::default() };
+        for sl in slots.iter_mut().filter(|s| s.sc == i) {
+            let mut wall = 0.0;
+            for st in sl.stats.drain(..) {
+                wall += st.wall_s;
+                agg.merge(st);
+            }
+            agg.wall_s = agg.wall_s.max(wall);
+            agg.complete &= sl.resume.is_none();
+            agg.depth_completed = agg.depth_completed.min(sl.depth_completed);
         }
         out.insert(sc.name.clone(), agg);
     }
